@@ -33,6 +33,7 @@ type RangeSpec struct {
 	Key     string // name bound to the current key in invariants (optional)
 	Inv     []Clause
 	OnBreak []Clause
+	Uses    []Clause
 }
 
 type CallsiteSpec struct {
@@ -60,6 +61,7 @@ type Contract struct {
 	Inline    bool
 	Assumed   string
 	Pure      bool
+	Determ    bool
 	Loops     map[int]*LoopSpec
 	Ranges    map[int]*RangeSpec
 	Callsites []CallsiteSpec
@@ -124,7 +126,7 @@ func newContractSet() *ContractSet {
 var clauseKeywords = map[string]bool{
 	"func": true, "interface": true, "type": true, "ghost": true, "spec": true, "lemma": true, "syncmap": true,
 	"props": true, "requires": true, "ensures": true, "modifies": true, "nopanic": true, "maypanic": true,
-	"inline": true, "assumed": true, "pure": true, "use": true, "loop": true, "range": true, "callsite": true, "decreases": true,
+	"inline": true, "assumed": true, "pure": true, "use": true, "deterministic": true, "loop": true, "range": true, "callsite": true, "decreases": true,
 }
 
 func firstWord(s string) string {
@@ -458,6 +460,8 @@ func (c *Contract) addClause(kw, rest string) error {
 		c.Inline = true
 	case "pure":
 		c.Pure = true
+	case "deterministic":
+		c.Determ = true
 	case "assumed":
 		l, _ := splitLabel(rest)
 		c.Assumed = l
@@ -554,6 +558,15 @@ func (c *Contract) addClause(kw, rest string) error {
 			if len(g) == 3 && g[1] == "key" {
 				rs.Key = g[2]
 			}
+		case "use":
+			x, err := parser.ParseExpr(body)
+			if err != nil {
+				return err
+			}
+			if _, ok := x.(*ast.CallExpr); !ok {
+				return fmt.Errorf("use expects a lemma call")
+			}
+			rs.Uses = append(rs.Uses, Clause{Label: funName(x.(*ast.CallExpr).Fun), Expr: x, Src: body})
 		case "invariant", "onbreak":
 			label, e := splitLabel(body)
 			x, err := parser.ParseExpr(e)
